@@ -10,6 +10,7 @@ Per property the check runs
      observed state (VIOLs),
   4. a binding self-test: one recorded field is corrupted and the validator must name it.
 """
+import collections
 import json
 import os
 import re
@@ -26,10 +27,11 @@ SWITCH = {
     "F4": "periodicAckSwallow", "F8": "refBeforeSpawnUnmarked", "F9": "removalOverwrite",
     "F11": "emptyMutateWithGraphs", "F14": "whiteReAddForgetsLost", "F18": "periodicBumpSwallow",
     "F19": "ackDiscarded", "F21": "lateJoinerMissesEmpty", "F15": "staleBuffersOnRestart",
+    "F17": "clientLinkedDespawn",
 }
 ALL_SWITCHES = ["removalOverwrite", "staleRemovalOnDespawn", "noLostDespawnHidden", "whiteReAddForgetsLost",
                 "ackOnReceipt", "periodicAckSwallow", "periodicBumpSwallow", "ackDiscarded", "lateJoinerMissesEmpty", "staleBuffersOnRestart",
-                "emptyMutateWithGraphs", "refBeforeSpawnUnmarked", "seedLeakHidden", "seedIgnoreMapping", "seedEvNoQueue", "seedEvNoExclude",
+                "emptyMutateWithGraphs", "refBeforeSpawnUnmarked", "clientLinkedDespawn", "seedLeakHidden", "seedIgnoreMapping", "seedEvNoQueue", "seedEvNoExclude",
                 "seedEvUnauth"]
 
 # monitors (VIOL tags of CoreTrace) -> properties
@@ -205,36 +207,67 @@ def props_of_diff(d):
 
 
 def sig_f17(lines):
-    """Signature of known finding F17 over the steps of one run: an entity is despawned while a living
-    entity that had it as relation target at the last tick has been detached / re-attached since."""
-    at_tick, prev = {}, None
+    """Mechanism of known finding F17, on the client's observations: in a client frame an entity dies although
+    no despawn record for it is applied, while an entity above it in the client-side hierarchy (as held before
+    the frame or as set by the messages applied in it) is removed by a despawn record.  That is Bevy's linked
+    despawn run by the client's `despawn` of the parent."""
+    prev = None
     for d in lines:
-        w = d["post"]["srv"]["world"]
-        if d["ev"] == "Despawn" and prev is not None:
-            p = d["args"]["e"]
-            pw = prev["post"]["srv"]["world"]
-            for ch, old in at_tick.items():
-                if old == p and pw.get(ch, {}).get("alive") and pw[ch].get("parent") != p:
-                    return True
-        if d["ev"] == "SrvFrame" and d["args"].get("tick"):
-            at_tick = {e: v["parent"] for e, v in w.items() if v["alive"] and v.get("parent", "none") != "none"}
+        if d["ev"] == "CliFrame" and prev is not None:
+            c = d["args"]["c"]
+            pe, ne = prev["post"]["cli"][c]["ents"], d["post"]["cli"][c]["ents"]
+            net = prev["post"]["net"][c]
+            desp, edges = set(), collections.defaultdict(set)
+            for e, v in pe.items():
+                if v.get("parent", "none") not in ("none", "?"):
+                    edges[e].add(v["parent"])
+            for m in net["rxUpd"]:
+                desp |= set(m["desp"])
+                for e, ch in m["chg"].items():
+                    if "ChildOf" in ch:
+                        edges[e].add(ch["ChildOf"])
+            for m in list(net["rxMut"]) + list(prev["post"]["cli"][c]["buf"]):
+                for e, ch in m["ents"].items():
+                    if isinstance(ch, dict) and "ChildOf" in ch:
+                        edges[e].add(ch["ChildOf"])
+            for e, v in ne.items():
+                if not v["alive"] and e not in desp and (e not in pe or pe[e]["alive"]):
+                    seen, todo = set(), [e]
+                    while todo:
+                        x = todo.pop()
+                        for p in edges.get(x, ()):
+                            if p in desp:
+                                return True
+                            if p not in seen:
+                                seen.add(p)
+                                todo.append(p)
         prev = d
     return False
 
 
 def sig_f20(lines):
-    """Signature of known finding F20: set_visibility was called for an entity and the entity's marker is
-    removed later while it stays alive."""
-    touched = set()
+    """Mechanism of known finding F20, on the server's observations: a server frame drops the visibility
+    entry of an entity (a hidden one of a blacklist, any of a whitelist) although the entity is still alive -
+    it only stopped being replicated."""
+    prev = None
     for d in lines:
-        if d["ev"] == "SetVis":
-            touched.add(d["args"]["e"])
-        if d["ev"] == "Unmark" and d["args"]["e"] in touched:
-            return True
+        if d["ev"] == "SrvFrame" and prev is not None:
+            w = d["post"]["srv"]["world"]
+            for c, cl in d["post"]["srv"]["cl"].items():
+                pv, nv = prev["post"]["srv"]["cl"][c]["vis"], cl["vis"]
+                if pv["kind"] != nv["kind"] or not cl["conn"]:
+                    continue
+                for e, code in pv["list"].items():
+                    kept = not (pv["kind"] == "black" and code == 1)    # queued for removal: dropped legitimately
+                    if kept and e not in nv["list"] and w.get(e, {}).get("alive"):
+                        return True
+        prev = d
     return False
 
 
 SIGNATURES = {"F17": sig_f17, "F20": sig_f20}
+# monitors a known finding is known to falsify (C11rest: the dead entity's mutations are never acknowledged)
+KF_MONITORS = {"F17": {"C01", "C03", "C01parent", "C11rest"}, "F20": {"C08query"}}
 
 
 def run_lines(trace, run):
@@ -340,17 +373,22 @@ class CoreCheck:
         seen_runs = set()
         open_kf = {f["id"]: f for f in L.load_known_findings() if f.get("status") == "open" and f["id"] in known}
         kf_hits = 0
+        kf_runs = set()
         for x in mine_v + mine_d:
+            # a known finding excuses only the monitors it is known to falsify, in runs that show its
+            # mechanism; conformance differences are never excused (the findings are part of the model)
+            if open_kf and "prop" in x:
+                lines = run_lines(trace, x["run"])
+                hit = next((fid for fid in open_kf if x["prop"] in KF_MONITORS[fid] and SIGNATURES[fid](lines)), None)
+                if hit:
+                    if (x["run"], hit) not in kf_runs:
+                        kf_runs.add((x["run"], hit))
+                        kf_hits += 1
+                        self.v.known_finding(f"{hit}: {open_kf[hit]['what'][:160]}")
+                    continue
             if x["run"] in seen_runs:
                 continue
             seen_runs.add(x["run"])
-            if open_kf:
-                lines = run_lines(trace, x["run"])
-                hit = next((fid for fid in open_kf if SIGNATURES[fid](lines)), None)
-                if hit:
-                    kf_hits += 1
-                    self.v.known_finding(f"{hit}: {open_kf[hit]['what'][:160]}")
-                    continue
             rp = os.path.join(L.REPLAYS, f"{self.pid}-{profile}-seed{self.seed}-run{x['run']}.ndjson")
             os.makedirs(L.REPLAYS, exist_ok=True)
             extract_run(trace, x["run"], rp)
@@ -391,7 +429,7 @@ class CoreCheck:
                 f.write(json.dumps(b) + "\n")
         unq = lambda s: [x.strip().strip('"') for x in s.strip("{}").split(",") if x.strip()]
         cfgj = {"ents": unq(consts["Ent"]), "clients": unq(consts["Client"]), "policy": consts["Policy"].strip('"'),
-                "track": consts["Track"] == "TRUE", "rel": False, "max_size": [1200] * len(unq(consts["Client"])),
+                "track": consts["Track"] == "TRUE", "rel": "relate" in consts["OpKinds"], "max_size": [1200] * len(unq(consts["Client"])),
                 "auth": "none", "timeout_ms": int(consts["Timeout"]), "events": False}
         cfile = os.path.join(self.wd, f"{name}.cfg.json")
         json.dump(cfgj, open(cfile, "w"))
